@@ -656,6 +656,16 @@ func init() {
 				sc.Clients = append(sc.Clients, Client{Name: "manual", Ops: []Op{{AtMs: Pick(r, 1000, 2500), Op: "start", Arg: "tl"}}})
 				late()
 			}
+			if rp := sc.Project.Proc("rep"); rp != nil && r.P(500) {
+				// replicas added by a scale request are dependents like the configured ones;
+				// the added ones take the longest to die
+				n := rp.Replicas + r.Range(1, 2)
+				for i := rp.Replicas; i < n; i++ {
+					sc.Scripts[fmt.Sprintf("rep.%d", i)] = &TokenScript{Launches: []simos.Script{{LifeMs: -1, TermLagMs: Pick(r, 1500, 3000)}}}
+				}
+				sc.Clients = append(sc.Clients, Client{Name: "grow", Ops: []Op{{AtMs: Pick(r, 1500, 2500), Op: "scale", Arg: "rep-0", N: n}}})
+				late()
+			}
 			return sc
 		},
 		Check: func(sc *Scenario, res *RunResult, t *Truth) []Violation { return checkC12(sc, t) },
